@@ -222,7 +222,11 @@ def _raw_effects(p):
     return out
 
 
+COMPARED = []   # (live qualname, reference name) of every comparison made
+
+
 def compare(program, live_fi, ref_fi, effects=default_effects, **kw):
+    COMPARED.append((live_fi.qualname, getattr(ref_fi, "name", "?")))
     lk = dict(kw.get("live_kw") or {})
     rk = dict(kw.get("ref_kw") or {})
     deep = os.environ.get("ZC_DEEP") == "1" and "loop_policy" not in lk \
